@@ -113,12 +113,18 @@ def correspond(ctx, scale):
         if (ci // 2) % 3 == 1:
             kw.update(straight_through=True, rotation_trick=False)        # straight-through (soft one-hot) estimator: the SAMPLING law must be the same
             dist['straight_through_configs'] = dist.get('straight_through_configs', 0) + 1
+        hm = (ci // 4) % 3          # heads: 1 | 2 with separate codebooks | 2 sharing one codebook - the noise is independent per head, position and code
         if residual:
             mod = ResidualVQ(dim=d, num_quantizers=2, **kw)
             cbs = [l._codebook for l in mod.layers]
-        else:
+        elif hm == 0:
             mod = VectorQuantize(dim=d, **kw)
             cbs = [mod._codebook]
+        else:
+            mod = VectorQuantize(dim=2 * d, heads=2, codebook_dim=d, separate_codebook_per_head=(hm == 1), **kw)
+            cbs = [mod._codebook]
+            d = 2 * d
+            dist['multi_head_configs'] = dist.get('multi_head_configs', 0) + 1
         mod.train(train)
         # a HISTORY of calls on this one layer object: the temperature in force at each call is the per-call one if given, else the CONFIGURED one
         # (a per-call temperature must not stick to later calls)
